@@ -145,7 +145,20 @@ impl MapSnap {
             if a != b {
                 let only_a: Vec<&String> = a.iter().filter(|x| !b.contains(x)).collect();
                 let only_b: Vec<&String> = b.iter().filter(|x| !a.contains(x)).collect();
-                return Some(format!("{}: only-left={:?} only-right={:?} (sizes {} vs {})", name, only_a, only_b, a.len(), b.len()));
+                // equal as sets but not as multisets: name the records whose multiplicity differs
+                let mut dup: Vec<String> = vec![];
+                if only_a.is_empty() && only_b.is_empty() {
+                    let mut seen: std::collections::BTreeSet<&String> = Default::default();
+                    for x in a.iter().chain(b.iter()) {
+                        if seen.insert(x) {
+                            let (ca, cb) = (a.iter().filter(|y| *y == x).count(), b.iter().filter(|y| *y == x).count());
+                            if ca != cb {
+                                dup.push(format!("{}x/{}x {}", ca, cb, x));
+                            }
+                        }
+                    }
+                }
+                return Some(format!("{}: only-left={:?} only-right={:?} (sizes {} vs {}){}", name, only_a, only_b, a.len(), b.len(), if dup.is_empty() { String::new() } else { format!(" multiplicity differs: {:?}", dup) }));
             }
         }
         None
